@@ -14,7 +14,26 @@ pub struct Violation {
 }
 
 #[derive(Clone, Debug)]
-pub struct Known { pub property: String, pub sig: String, pub text: String }
+pub struct Known {
+    pub property: String,
+    pub sig: String,
+    pub text: String,
+    /// when present: the finding only covers these specific inputs (64-bit hashes of the case keys, see case_key);
+    /// a violation with the same signature on ANY OTHER input is reported
+    pub inputs: Option<std::collections::HashSet<u64>>,
+    pub inputs_file: Option<String>,
+}
+
+/// The identity of the failing case of a violation: instance, model variant, configuration, diagram / target, thread
+/// counts, cut-off index, primal -- everything but the schedule and the outcome.
+pub fn case_key(replay: &Value) -> String {
+    let mut k = String::new();
+    for f in ["engine", "solver", "mode", "instance", "cfg", "k", "primal", "diagram", "target", "unit", "fire_at", "lb", "ub", "example", "args", "instance_index", "program", "ops", "case"] {
+        if let Some(v) = replay.get(f) { if !v.is_null() { k.push_str(f); k.push('='); k.push_str(&v.to_string()); k.push(';'); } }
+    }
+    k
+}
+pub fn key_hash(key: &str) -> u64 { fxhash::hash64(key) }
 
 pub fn verif_dir() -> String { std::env::var("VERIF_DIR").unwrap_or_else(|_| "/verif".to_string()) }
 /// where evidence and replay files go (differs from verif_dir() only when the checks run against a copy of the repository)
@@ -30,13 +49,20 @@ pub fn load_known() -> Vec<Known> {
             let rest = line["known:".len()..].trim();
             let mut property = String::new();
             let mut sig = String::new();
+            let mut inputs_file: Option<String> = None;
             let mut text = vec![];
             for tok in rest.split_whitespace() {
                 if let Some(p) = tok.strip_prefix("property=") { if property.is_empty() { property = p.to_string(); continue; } }
                 if let Some(s) = tok.strip_prefix("sig=") { if sig.is_empty() { sig = s.to_string(); continue; } }
+                if let Some(s) = tok.strip_prefix("inputs=") { if inputs_file.is_none() { inputs_file = Some(s.to_string()); continue; } }
                 text.push(tok);
             }
-            out.push(Known { property, sig, text: text.join(" ") });
+            let inputs = inputs_file.as_ref().map(|f| {
+                let mut set = std::collections::HashSet::new();
+                if let Ok(t) = std::fs::read_to_string(format!("{}/{}", verif_dir(), f)) { for l in t.lines() { if let Ok(h) = u64::from_str_radix(l.trim(), 16) { set.insert(h); } } }
+                set
+            });
+            out.push(Known { property, sig, text: text.join(" "), inputs, inputs_file });
         }
     }
     out
@@ -51,17 +77,34 @@ pub struct Reporter {
     pub violations: Mutex<Vec<Violation>>,
     pub nb_violations: std::sync::atomic::AtomicUsize,
     pub engine_errors: Mutex<Vec<String>>,
+    /// per known finding with an input list: number of violations matched / keys seen (generation mode)
+    pub known_matched: Mutex<BTreeMap<String, u64>>,
+    pub known_gen: Mutex<BTreeMap<String, std::collections::BTreeSet<u64>>>,
 }
 
 impl Reporter {
     pub fn new(property: &str, tier: &str) -> Reporter {
         let seed = std::env::var("VERIF_SEED").ok().and_then(|s| s.parse().ok()).unwrap_or(0);
-        Reporter { property: property.to_string(), tier: tier.to_string(), seed, start: Instant::now(), known: load_known(), violations: Mutex::new(vec![]), nb_violations: Default::default(), engine_errors: Mutex::new(vec![]) }
+        Reporter { property: property.to_string(), tier: tier.to_string(), seed, start: Instant::now(), known: load_known(), violations: Mutex::new(vec![]), nb_violations: Default::default(), engine_errors: Mutex::new(vec![]), known_matched: Mutex::new(BTreeMap::new()), known_gen: Mutex::new(BTreeMap::new()) }
     }
     pub fn thorough(&self) -> bool { self.tier == "thorough" }
     /// records a violation (keeps at most 40 per signature in memory, all are counted)
     pub fn violation(&self, sig: String, what: String, replay: Value) {
         self.nb_violations.fetch_add(1, std::sync::atomic::Ordering::SeqCst);
+        // a known finding restricted to listed inputs: matched here, per case
+        if let Some(k) = self.known.iter().find(|k| k.property == self.property && k.sig == sig && k.inputs.is_some()) {
+            let h = key_hash(&case_key(&replay));
+            if std::env::var("VERIF_KNOWN_GEN").is_ok() { self.known_gen.lock().unwrap().entry(sig.clone()).or_default().insert(h); }
+            if k.inputs.as_ref().unwrap().contains(&h) || std::env::var("VERIF_KNOWN_GEN").is_ok() {
+                *self.known_matched.lock().unwrap().entry(sig).or_insert(0) += 1;
+                return;
+            }
+            // same signature, but an input which the finding does not list: a different violation
+            let mut v = self.violations.lock().unwrap();
+            let sig2 = format!("{}:unlisted-input", sig);
+            if v.iter().filter(|x| x.sig == sig2).count() < 3 { v.push(Violation { sig: sig2, what: format!("{} [the signature is that of a known finding, but this input is not among the inputs it lists]", what), replay }); }
+            return;
+        }
         let mut v = self.violations.lock().unwrap();
         if v.iter().filter(|x| x.sig == sig).count() < 3 { v.push(Violation { sig, what, replay }); }
     }
@@ -74,8 +117,19 @@ impl Reporter {
         let viol = self.violations.lock().unwrap();
         let mut new_sigs: BTreeMap<String, &Violation> = BTreeMap::new();
         let mut known_hit: BTreeMap<String, (String, usize)> = BTreeMap::new();
+        for (sig, n) in self.known_matched.lock().unwrap().iter() {
+            if let Some(k) = self.known.iter().find(|k| k.property == self.property && &k.sig == sig) { known_hit.insert(sig.clone(), (format!("{} [{} occurrences, all on inputs listed in {}]", k.text, n, k.inputs_file.clone().unwrap_or_default()), *n as usize)); }
+        }
+        if let Ok(dir) = std::env::var("VERIF_KNOWN_GEN") {
+            // maintenance mode (never used by the registered commands): writes the case keys of the known signatures
+            let _ = std::fs::create_dir_all(&dir);
+            for (sig, set) in self.known_gen.lock().unwrap().iter() {
+                let f = format!("{}/{}-{}-{}.keys", dir, self.property, sig.replace(|c: char| !c.is_alphanumeric(), "_"), self.tier);
+                let _ = std::fs::write(&f, set.iter().map(|h| format!("{:016x}\n", h)).collect::<String>());
+            }
+        }
         for v in viol.iter() {
-            if let Some(k) = self.known.iter().find(|k| k.property == self.property && k.sig == v.sig) {
+            if let Some(k) = self.known.iter().find(|k| k.property == self.property && k.sig == v.sig && k.inputs.is_none()) {
                 let e = known_hit.entry(k.sig.clone()).or_insert((k.text.clone(), 0));
                 e.1 += 1;
             } else {
